@@ -958,3 +958,38 @@ theorem C06_ext_iff_link (g : SG) (nodes prevSub curSub : List Nat) (c p : Nat)
       · simp only [Option.some.injEq, Prod.mk.injEq] at hval
         obtain ⟨rfl, _⟩ := hval
         exact ⟨hn, hnx⟩
+
+
+open Matrix
+
+section PermutedFit
+variable {R : Type} [Field R] [LinearOrder R] [IsStrictOrderedRing R]
+
+/-- **What a permuted fan-in does to the readout behind it (finding K20).** If the features reach the readout permuted
+    (or rotated by any orthogonal `Q`: `X * Q` instead of `X`) the normal equations are solved by `Qᵀ W`, where `W`
+    solves them for the features in operand order … -/
+theorem C06_permuted_fit_normal_eq {T d k : Nat} (lam : R) (X : Matrix (Fin T) (Fin d) R) (Y : Matrix (Fin T) (Fin k) R)
+    (W : Matrix (Fin d) (Fin k) R) (Q : Matrix (Fin d) (Fin d) R) (hQ : Q * Qᵀ = 1)
+    (hne : (Xᵀ * X + lam • (1 : Matrix (Fin d) (Fin d) R)) * W = Xᵀ * Y) :
+    ((X * Q)ᵀ * (X * Q) + lam • (1 : Matrix (Fin d) (Fin d) R)) * (Qᵀ * W) = (X * Q)ᵀ * Y := by
+  have h1 : (X * Q)ᵀ * (X * Q) * (Qᵀ * W) = Qᵀ * (Xᵀ * X * W) := by
+    rw [transpose_mul]
+    calc Qᵀ * Xᵀ * (X * Q) * (Qᵀ * W) = Qᵀ * Xᵀ * X * (Q * Qᵀ) * W := by simp only [Matrix.mul_assoc]
+      _ = Qᵀ * (Xᵀ * X * W) := by rw [hQ, Matrix.mul_one]; simp only [Matrix.mul_assoc]
+  rw [Matrix.add_mul, h1, Matrix.smul_mul, Matrix.one_mul, transpose_mul, Matrix.mul_assoc Qᵀ Xᵀ Y, ← hne,
+    Matrix.add_mul, Matrix.smul_mul, Matrix.one_mul, Matrix.mul_add, Matrix.mul_smul]
+
+/-- … so for λ > 0 the readout fitted on the permuted features is EXACTLY `Qᵀ W` (unique optimum), and applied to the
+    features in operand order - what the fitted model does at run time - it computes `Wᵀ (Q x)`: the right weights on
+    the wrongly ordered features -/
+theorem C06_permuted_fit {T d k : Nat} (lam : R) (hlam : 0 < lam) (X : Matrix (Fin T) (Fin d) R)
+    (Y : Matrix (Fin T) (Fin k) R) (W W' : Matrix (Fin d) (Fin k) R) (Q : Matrix (Fin d) (Fin d) R) (hQ : Q * Qᵀ = 1)
+    (hne : (Xᵀ * X + lam • (1 : Matrix (Fin d) (Fin d) R)) * W = Xᵀ * Y)
+    (hne' : ((X * Q)ᵀ * (X * Q) + lam • (1 : Matrix (Fin d) (Fin d) R)) * W' = (X * Q)ᵀ * Y) :
+    W' = Qᵀ * W ∧ ∀ x : Matrix (Fin d) (Fin 1) R, W'ᵀ * x = Wᵀ * (Q * x) := by
+  have h := C06_permuted_fit_normal_eq lam X Y W Q hQ hne
+  have hW : W' = Qᵀ * W := C04_unique_solution lam hlam (X * Q) Y (Qᵀ * W) W' h hne'
+  refine ⟨hW, fun x => ?_⟩
+  rw [hW, transpose_mul, transpose_transpose, Matrix.mul_assoc]
+
+end PermutedFit
